@@ -74,6 +74,18 @@ def main():
             want = (0 if q < c[0] else n) if not exp_in else max(k for k in range(n) if c[k] <= q)
             if j != want:
                 s.fail(f"coord_clamp:{step}:{n}", f"get_coord_index(..., {q!r}, raise_error=False) = {j}, expected {want}")
+    # the clamped lookup on EVERY axis of non-square arrays, in both dimension orders (the queried axis need not be the first)
+    for (nt, nf), order in itertools.product([(3, 7), (7, 3), (4, 4), (1, 5)], [("time", "frequency"), ("frequency", "time")]):
+        tc, fc = np.arange(nt) * 0.5 + 1.0, np.arange(nf) * 100.0 + 50.0
+        shape = (nt, nf) if order[0] == "time" else (nf, nt)
+        arr = xr.DataArray(np.zeros(shape), dims=order, coords={"time": tc, "frequency": fc})
+        for dim, c in (("time", tc), ("frequency", fc)):
+            for q in (c[0] - 1.0, c[0], c[-1], c[-1] + 0.25, c[-1] + 1e6):
+                want = 0 if q < c[0] else len(c) if q > c[-1] else max(k for k in range(len(c)) if c[k] <= q)
+                s.case(None, ("clamp2d", nt, nf, order[0], dim, float(q)))
+                got = get_coord_index(arr, dim, q, raise_error=False)
+                if got != want:
+                    s.fail(f"coord_clamp_2d:{order[0]}-first:{dim}", f"get_coord_index on a {nt}x{nf} array with dims {order}, dim={dim}, value={q!r}, raise_error=False = {got}, expected {want}")
     for shape, dims in (((5,), ("time",)), ((5, 4), ("time", "frequency")), ((3, 5, 4), ("channel", "time", "frequency"))):
         coords = {"time": np.arange(5) * 0.5, "frequency": np.arange(4) * 100.0, "channel": np.arange(3)}
         for t, f in itertools.product((0.0, 0.7, 2.0), (None, 0.0, 250.0)):
